@@ -123,9 +123,11 @@ def min_cost_flow[Node](
     total_flow = 0
     iterations = 0
 
+    no_parent = object()
+
     def bellman_ford():
         dist = {n: float("inf") for n in nodes}
-        parent = {n: None for n in nodes}
+        parent = {n: no_parent for n in nodes}  # a sentinel: None is a legal node label
         dist[source] = 0
 
         for _ in range(len(nodes) - 1):
@@ -147,7 +149,7 @@ def min_cost_flow[Node](
 
         path = []
         node = sink
-        while node is not None:
+        while node is not no_parent:
             path.append(node)
             node = parent[node]
         path.reverse()
